@@ -65,6 +65,21 @@ def demandFast (v : View) (k : Nat) : View :=
 /-- `request_byte_at_offset(k)`. -/
 def reqAt (v : View) (k : Nat) : Option UInt8 × View := (v.rest[k]?, v.demand k)
 
+/-- `demand v k` for a caller that already holds `cur = v.rest.drop k` (cost O(1)): used by the
+executable twins of loops that request offsets `0, 1, 2, …` in turn and would otherwise walk
+`k` cells of the list per request (see `Btor2.skipWsLoopFast`). -/
+def demandCur (v : View) (cur : VBytes) (k : Nat) : View :=
+  let v := { v with peeked := max v.peeked (v.pos + k + 1) }
+  match cur with
+  | _ :: _ => v
+  | [] => { v with sawEnd := true, ioErr := v.ioErr || (v.fault && !v.sawEnd) }
+
+theorem demand_eq_demandCur (v : View) (k : Nat) : v.demand k = v.demandCur (v.rest.drop k) k := by
+  rw [demand_eq_demandFast]; rfl
+
+theorem demandCur_rest (v : View) (cur : VBytes) (k : Nat) : (v.demandCur cur k).rest = v.rest := by
+  unfold demandCur; cases cur <;> rfl
+
 /-- `request_byte()`. -/
 def reqByte (v : View) : Option UInt8 × View := v.reqAt 0
 
